@@ -116,6 +116,8 @@ def handle (line : String) : String :=
       if d.wfFull then
         " ".intercalate ((outs AgVerif.Gen.RenameCfg.cfg d (init d) ops.reverse).map showOut)
       else "not-wf"
+  | ["markers"] =>      -- what the model answers for a string / type index outside the pools
+    hexOfStr (rawString emptyDex 0) ++ " " ++ hexOfStr (rawType emptyDex 0)
   | _ => "bad-op"
 
 def main : IO Unit := runMain handle
